@@ -128,6 +128,9 @@ def validate(trace_module, tracefile, workdir, timeout=1500, cfg="Trace.cfg", he
     if rc != 0 or "UNCONSUMED" in text or c is None or c[1] != nlines + 1 or "Model checking completed. No error has been found." not in text:
         sys.stdout.write(text[-5000:])
         raise ToolError("trace validation %s did not consume the whole trace (rc=%s, states=%s, lines=%d)" % (trace_module, rc, c, nlines))
+    drift = len(re.findall(r'<<"DRIFT", (-?\d+)', text))
+    if drift:
+        print("SPEC-DRIFT property=%s %d observations disagree with the implementation-shaped model (not a violation)" % (trace_module.replace("Trace_", ""), drift))
     log("T %s: %d lines validated, %d rejected, %.0fs" % (trace_module, nlines, len(rejects), dt))
     return nlines, {k: sorted(v) for k, v in rejects.items()}
 
